@@ -8,6 +8,7 @@ from hypothesis import strategies as st
 from hypothesis.stateful import RuleBasedStateMachine, initialize, rule
 
 from ..common import HarnessError, Violation, hyp_run_machine, import_auditok, lib_guard
+from ..gen import rarely
 from ..oracles import block_model
 from . import c10
 
@@ -26,7 +27,7 @@ RULE = (
     "Each step is compared with the model. Non-trivial = a rewind after a partial read (0<k<all) or two rewinds, "
     "with overlap or max_read active."
 )
-MUST_HIT = ["source_already_partly_consumed", "rewind_after_zero_reads", "rewind_twice_in_a_row", "overlap_maxread_partial", "non_recording",
+MUST_HIT = ["thousands_of_reads", "source_already_partly_consumed", "rewind_after_zero_reads", "rewind_twice_in_a_row", "overlap_maxread_partial", "non_recording",
             "data_before_rewind", "replay_read"]
 ASSUMPTIONS = ["block model of C10"]
 BOUNDS = {"quick": dict(n=400, steps=30), "thorough": dict(n=3000, steps=40)}
@@ -96,6 +97,14 @@ class Interp:
         self.ops.append(op)
         case = self.case()
         with lib_guard(self.case):
+            if isinstance(op, list) and op[0] == "read_n":
+                # many reads in one step (deep state); each is checked like a single read
+                self.ops.pop()
+                for _ in range(op[1]):
+                    self.apply("read")
+                self.ops = [o for o in self.ops if o != "read"][-20:] + [op]
+                self.classes.add("thousands_of_reads")
+                return
             if op == "read":
                 got = self.reader.read()
                 if self.k < len(self.spans):
@@ -181,11 +190,13 @@ def check_case(case, rec):
 def config(draw, maxN=50):
     B = draw(st.integers(1, 8))
     N = draw(st.integers(0, maxN))
+    if draw(rarely(10)):
+        B, N = 1, draw(st.integers(2050, 2300))  # room for more than 2048 one-sample blocks
     return dict(
         sr=draw(st.sampled_from([8, 10, 100, 16000])), sw=draw(st.sampled_from([1, 2, 4])),
         ch=draw(st.integers(1, 2)), N=N, B=B, H=draw(st.one_of(st.none(), st.integers(1, B))),
         fb=draw(st.sampled_from([0, 0, 0.5, 0.75])), fh=0,
-        mr=draw(st.one_of(st.none(), st.tuples(st.integers(0, N + 5), st.just(0)).map(list))),
+        mr=draw(st.one_of(st.none(), st.tuples(st.integers(0, N + 5), st.sampled_from([0, 0, 0.5, 0.25])).map(list))),
         kind=draw(st.sampled_from(["bytes", "bytes", "raw_lazy", "wav_lazy", "buffer", "stdin", "stdin_pipe"])),
         how=draw(st.sampled_from(["record", "Recorder", "record", "Recorder", "plain"])),
         salt=draw(st.integers(0, 10**6)),
@@ -209,6 +220,11 @@ class RecorderMachine(RuleBasedStateMachine):
         for _ in range(n):
             self.it.apply("read")
 
+    @rule(go=rarely(6), n=st.sampled_from([1023, 1024, 1025, 2047, 2048, 2049, 2100]))
+    def read_many(self, go, n):
+        if go and self.it.cfg["N"] >= 2000:
+            self.it.apply(["read_n", n])
+
     @rule()
     def rewind(self):
         self.it.apply("rewind")
@@ -229,6 +245,8 @@ def explicit_cases():
     return [
         {"cfg": cfg, "ops": ["data", "read", "read", "rewind", "data", "read", "read", "read", "rewind", "rewind", "data", "read"]},
         {"cfg": dict(cfg, how="Recorder"), "ops": ["rewind", "read", "read", "data"]},
+        {"cfg": dict(cfg, N=2300, B=1, H=None, mr=None), "ops": [["read_n", 2100], "rewind", "data", ["read_n", 2101], "rewind", "data"]},
+        {"cfg": dict(cfg, N=2300, B=1, H=None, mr=[2200, 0], kind="raw_lazy", how="Recorder"), "ops": [["read_n", 2048], "rewind", "data", "read"]},
         {"cfg": dict(cfg, kind="buffer", prepos=5), "ops": ["read", "read", "rewind", "data", "read", "read", "read"]},
         {"cfg": dict(cfg, how="plain"), "ops": ["read", "data", "rewind", "read"]},
         {"cfg": dict(cfg, H=None, mr=None, kind="wav_lazy"), "ops": ["read"] * 7 + ["rewind", "data"] + ["read"] * 7},
